@@ -258,7 +258,8 @@ impl<T: WaveformData> CommonBuiltinParameters<T> {
 
         let sample_count_fract = duration * sample_rate;
         let sample_count = sample_count_fract.round();
-        let misalignment = sample_count_fract - sample_count;
+        // Both in seconds; the largest allowed misalignment is 1% of a sample
+        let misalignment = (sample_count_fract - sample_count) / sample_rate;
         let max_misalignment = 1.0 / (sample_rate * 100.0);
 
         if sample_count < 0.0 || sample_count >= f64::from(u32::MAX) {
